@@ -773,6 +773,56 @@ def selftest():
     return 0
 
 
+# ------------------------------------------------------------------ sensitivity self-test
+
+def mutants(args):
+    """Applies each patch of /verif/mutants (and /verif/seeded/*/patch.diff) to a scratch worktree of /repo and runs the
+    owning check against it (VERIF_REPO): the check must exit 1. Not part of the registered commands."""
+    import glob, shutil, tempfile
+    suite = "--suite" in args
+    only = [a for a in args if not a.startswith("--")]
+    items = []
+    for f in sorted(glob.glob(os.path.join(vlib.VERIF, "mutants", "*.diff"))):
+        name = os.path.basename(f)[:-5]
+        prop = name.split("-")[2] if name.startswith("revert-fix-") else name.split("-")[0]
+        items.append((name, prop, f))
+    for d in sorted(glob.glob(os.path.join(vlib.VERIF, "seeded", "*"))):
+        meta = os.path.join(d, "meta.json")
+        if os.path.exists(meta):
+            m = json.load(open(meta))
+            items.append(("seeded/" + os.path.basename(d), m.get("caught_by_check") or m["property"], os.path.join(d, "patch.diff")))
+    results = []
+    for name, prop, patch in items:
+        if only and not any(o in name for o in only):
+            continue
+        wt = tempfile.mkdtemp(prefix="verif-mut-", dir=os.environ.get("TMPDIR") or "/tmp")
+        os.rmdir(wt)
+        try:
+            vlib.sh(["git", "-C", "/repo", "worktree", "add", "--detach", wt, "HEAD", "-q"])
+            vlib.sh(["git", "-C", wt, "apply", patch])
+            entry = {"mutant": name, "property": prop}
+            if suite:
+                p = vlib.sh([vlib.GO, "test", "-vet=off", "-count=1", "-timeout", "25m", "./..."], cwd=wt, check=False, timeout=3000)
+                entry["repo_test_suite"] = "pass" if p.returncode == 0 else "FAIL"
+            env = dict(os.environ, VERIF_REPO=wt)
+            t0 = time.time()
+            p = subprocess.run([os.path.join(vlib.VERIF, "check"), prop, "quick"], env=env, capture_output=True, text=True)
+            entry["rc"] = p.returncode
+            entry["wall_s"] = round(time.time() - t0, 1)
+            entry["lines"] = [l[:300] for l in p.stdout.splitlines() if l.startswith("VIOLATION") or l.startswith("KNOWN")][:4]
+            entry["detail"] = [l[:300] for l in p.stderr.splitlines() if l.startswith("[verif]   ") or "HARNESS" in l][:3]
+            entry["caught"] = p.returncode == 1
+            results.append(entry)
+            print(json.dumps(entry), flush=True)
+        finally:
+            subprocess.run(["git", "-C", "/repo", "worktree", "remove", "--force", wt], capture_output=True)
+            shutil.rmtree(wt, ignore_errors=True)
+    json.dump(results, open(os.path.join(vlib.out_dir(), "mutants.json"), "w"), indent=1)
+    missed = [r["mutant"] for r in results if not r["caught"]]
+    print("mutants: %d run, %d caught, missed: %s" % (len(results), len(results) - len(missed), missed))
+    return 0 if not missed else 1
+
+
 def free_running_pass(sc, racebin, plain, seed):
     return {"violations": 0, "note": "not built yet"}
 
@@ -799,6 +849,8 @@ def main():
             return 0
         if args[0] == "selftest":
             return selftest()
+        if args[0] == "mutants":
+            return mutants(args[1:])
         if args[0] == "--replay":
             import replay
             return replay.replay_file(args[1])
